@@ -461,6 +461,7 @@ static int32_t wr_data_inner(struct jls_core_fsr_s * self, const void * data, ui
     uint8_t * dst_u8;
     uint8_t shift_this = (data_length * sample_size_bits) % 8;
     uint8_t shift_amount_next = (shift_this + self->shift_amount) % 8;
+    uint32_t carry_bits = self->shift_amount;  // carried bits of samples already counted in this block
 
     while (data_length) {
         dst_u8 = (uint8_t *) &b->data[0];
@@ -471,7 +472,7 @@ static int32_t wr_data_inner(struct jls_core_fsr_s * self, const void * data, ui
         }
         if (self->shift_amount) {
             uint8_t mask = (1 << self->shift_amount) - 1;
-            uint32_t bits = length * sample_size_bits + self->shift_amount;
+            uint32_t bits = length * sample_size_bits + carry_bits;
             while (bits) {
                 uint16_t v = (self->shift_buffer & mask);
                 if (bits > self->shift_amount) {  // else the carry already holds every remaining bit
@@ -498,6 +499,7 @@ static int32_t wr_data_inner(struct jls_core_fsr_s * self, const void * data, ui
         }
         b->header.entry_count += length;
         data_length -= length;
+        carry_bits = 0;  // after the first block, the carry holds samples of the next block
         if (b->header.entry_count >= self->data_length) {
             ROE(wr_data(self));
         }
